@@ -7,5 +7,5 @@ CONSTANTS
 INIT Init
 NEXT Next
 VIEW View
-INVARIANTS Emit RoundTrip1 ValuesValid Canonical1
+INVARIANTS Emit RoundTrip1 RoundTrip2 ValuesValid Canonical1
 CHECK_DEADLOCK FALSE
